@@ -3,7 +3,10 @@ use crate::Ctx;
 
 pub mod c01;
 pub mod c02;
+pub mod c04;
 pub mod c08;
+pub mod c09;
+pub mod c13;
 
 pub type MonFn = fn(&mut Ctx);
 
@@ -13,6 +16,13 @@ pub fn registry() -> Vec<(&'static str, &'static str, MonFn)> {
         ("c08_exh", "C08", c08::exhaustive as MonFn),
         ("c08_rand", "C08", c08::random as MonFn),
         ("c08_case", "C08", c08::single as MonFn),
+        ("c13_exh", "C13", c13::exhaustive as MonFn),
+        ("c13_rand", "C13", c13::random as MonFn),
+        ("c13_uniform", "C13", c13::uniform as MonFn),
+        ("c04_exh", "C04", c04::exhaustive as MonFn),
+        ("c04_rand", "C04", c04::random as MonFn),
+        ("c09_exh", "C09", c09::exhaustive as MonFn),
+        ("c09_rand", "C09", c09::random as MonFn),
         ("c02_pairs", "C02", c02::pairs as MonFn),
     ]
 }
